@@ -98,6 +98,11 @@ type c01case struct {
 	// output lines may contain the session's prompt text behind other text (end of line, middle of
 	// line, followed by blanks): not a prompt, the pattern is anchored at the line start
 	promptLines bool
+	// a prompt that ends in a blank ("router# ") is delivered with a read boundary between its
+	// terminator and the blank: every read that waits for it ends early, a step outside the quantifier
+	// ("proper prefixes never look like a prompt") which the domain decision has to recognise whatever
+	// operation meets it
+	cutInPrompt bool
 	ops         []c01op
 	depth       int
 	exact       bool
@@ -140,6 +145,7 @@ func genC01(seed uint64, thorough bool) c01case {
 	// sessions drawn with a small read size therefore print none, so that sizes 1, 2 and 7 are used
 	noEsc := cs.readSize < 16 && r.Chance(4, 5)
 	cs.promptLines = r.Chance(2, 5)
+	cs.cutInPrompt = strings.HasSuffix(cs.prompt, " ") && r.Chance(1, 2)
 	cs.delayUs = []int{20, 50, 250}[r.Intn(3)]
 	if cs.readSize < 16 && cs.delayUs == 250 {
 		cs.delayUs = 50 // thousands of tiny reads, each followed by the read delay: keep the session short
@@ -372,6 +378,13 @@ func c01check(c *ctx, cases []c01case) {
 			continue
 		}
 		dom := f[0] == "1" && !o.straddle
+		if os.Getenv("C01DEBUG") == "2" {
+			var kinds []byte
+			for _, op := range all {
+				kinds = append(kinds, op.kind)
+			}
+			fmt.Fprintf(os.Stderr, "CASE %s ops=%s prompt=%q aligned=%v straddle=%v results=%q errs=%q\n  %s\n  -> %s\n", caseLine, kinds, cs.prompt, o.aligned, o.straddle, o.results, o.errs, lines[i], ans[i])
+		}
 		mok := f[1] == "1"
 		unhexList := func(s string) []string {
 			var out []string
